@@ -151,7 +151,10 @@ TgtEndNoHalf(how) ==
   /\ TgtEndOK(how, {"no"})
   /\ UNCHANGED <<phase, want, reach, dials, sentUp, gotUp, sentDown, gotDown, appClosed, tgtClosed, cleanApp, cleanTgt, appSaw, fault, lapsed>>
 
-\* environment / time: one side has closed and the outer sides then stayed silent for longer than the close grace
+\* environment / time: one side has closed and the outer sides then stayed silent for longer than the close grace.
+\* (The observer claims a lapse only for silence that is the outer parties' own: the side opposite to the closer had
+\* already observed that end when the silent period began.  Silence while the end has not been passed on yet is the
+\* relay's doing and excuses nothing.)
 Lapse ==
   /\ phase = "open" /\ (appClosed # "no" \/ tgtClosed # "no")
   /\ lapsed' = TRUE
